@@ -428,6 +428,17 @@ local function coargs(n)
   if ok then return r end
   error(r, 0)
 end
+local function coresults(d, k)
+  if d > 0 then local r = coresults(d - 1, k) return r end
+  local ran = false
+  local co = coroutine.create(function() ran = true return unpack(mkt(k)) end)
+  local pok, ok, r = pcall(coroutine.resume, co)
+  local st = coroutine.status(co)
+  if ran and st ~= "dead" then error("COBROKEN a coroutine whose body has ended is " .. st, 0) end
+  if not pok then error(ok, 0) end -- the results did not fit into the resumer's registry
+  if not ok then error(r, 0) end
+  return tostring(r)
+end
 local function threegen()
   local C
   local A = coroutine.create(function()
@@ -476,7 +487,11 @@ func (e *Engine) demandProgram(t *core.Tape) (string, int) {
 	maxArg := 0
 	for i := 0; i < n; i++ {
 		id := fmt.Sprintf("d%d", i)
-		switch t.Choose(23) {
+		switch t.Choose(24) {
+		case 23:
+			a := argc[t.Choose(len(argc))]
+			maxArg = max(maxArg, a)
+			fmt.Fprintf(&sb, "run(%q, coresults, %d, %d)\n", id, t.Choose(70), a)
 		case 22:
 			a := argc[t.Choose(len(argc))]
 			maxArg = max(maxArg, a)
